@@ -8,6 +8,7 @@ package main
 
 import (
 	"bufio"
+	"context"
 	"encoding/json"
 	"fmt"
 	"os"
@@ -22,6 +23,8 @@ import (
 	"github.com/brimdata/super/compiler/ast/dag"
 	"github.com/brimdata/super/zbuf"
 	"github.com/brimdata/super/zson"
+
+	"verif/lakeh"
 )
 
 type task struct {
@@ -35,8 +38,16 @@ type task struct {
 	Legs    [][][]string `json:"legs,omitempty"` // gb2: input batches of leg 0 and leg 1
 	B2      int        `json:"b2,omitempty"`      // gb2 sorted: batch size of the merged stream
 	WithSec bool       `json:"withsec,omitempty"`
-	// join
-	Files map[string]string `json:"files,omitempty"` // name -> ZSON text; $DIR in Prog is replaced
+	// join: the two sides are pools of a private in-memory lake; a pool whose
+	// key is the join key k is "declared sorted" (pool order), a pool keyed on the
+	// row number u delivers the rows as written with no declared order on k.
+	Sides []joinSide `json:"sides,omitempty"` // $L / $R in Prog are replaced by the pool names
+}
+
+type joinSide struct {
+	Rows string `json:"rows"` // ZSON text
+	Key  string `json:"key"`  // "k" | "u"
+	Dir  string `json:"dir"`  // "asc" | "desc"
 }
 
 type stageResult struct {
@@ -191,14 +202,16 @@ func execTask(t *task, dir string) result {
 		o.Mutate = setPartials(true, false)
 		res.Stages = append(res.Stages, toStage(runProgram(zctx, t.Prog2, o, src)))
 	case "join":
-		for name, text := range t.Files {
-			if err := os.WriteFile(filepath.Join(dir, name), []byte(text), 0o644); err != nil {
+		prog := t.Prog
+		for i, ph := range []string{"$L", "$R"} {
+			name, err := theLake.pool(t.Sides[i])
+			if err != nil {
 				res.Stages = []stageResult{{Err: "harness: " + err.Error()}}
 				return res
 			}
+			prog = strings.ReplaceAll(prog, ph, name)
 		}
-		prog := strings.ReplaceAll(t.Prog, "$DIR", dir)
-		res.Stages = []stageResult{toStage(runProgram(zctx, prog, runOpts{Timeout: 30 * time.Second}, nil))}
+		res.Stages = []stageResult{theLake.query(prog)}
 	default:
 		res.Stages = []stageResult{{Err: "harness: unknown task kind " + t.Kind}}
 	}
@@ -206,6 +219,63 @@ func execTask(t *task, dir string) result {
 }
 
 var _ zbuf.Puller = (*batchSource)(nil)
+
+// lakeCache is the worker's private lake with one pool per distinct side.
+type lakeCache struct {
+	lk    *lakeh.Lake
+	pools map[string]string
+}
+
+var theLake = &lakeCache{pools: map[string]string{}}
+
+func (lc *lakeCache) pool(s joinSide) (string, error) {
+	ctx := context.Background()
+	if lc.lk == nil {
+		lk, err := lakeh.Create(ctx, lakeh.NewMemStore(), 0, nil)
+		if err != nil {
+			return "", err
+		}
+		lc.lk = lk
+	}
+	ck := s.Key + "|" + s.Dir + "|" + s.Rows
+	if name, ok := lc.pools[ck]; ok {
+		return name, nil
+	}
+	name := fmt.Sprintf("p%d", len(lc.pools))
+	id, err := lc.lk.CreatePool(ctx, name, s.Key, s.Dir, 0, 0)
+	if err != nil {
+		return "", err
+	}
+	if strings.TrimSpace(s.Rows) != "" {
+		if _, err := lc.lk.LoadZSON(ctx, id, "main", s.Rows); err != nil {
+			return "", err
+		}
+	}
+	lc.pools[ck] = name
+	return name, nil
+}
+
+func (lc *lakeCache) query(prog string) (res stageResult) {
+	res.Spills = []int{}
+	res.Batches = [][]string{}
+	defer func() {
+		if r := recover(); r != nil {
+			res.Err = fmt.Sprintf("panic: %v", r)
+		}
+	}()
+	ctx, cancel := context.WithTimeout(context.Background(), 30*time.Second)
+	defer cancel()
+	rows, err := lc.lk.QueryPar(ctx, prog, 1)
+	if err != nil {
+		res.Err = err.Error()
+		return res
+	}
+	if len(rows) > 0 {
+		res.Batches = [][]string{rows}
+	}
+	res.DAG = prog
+	return res
+}
 
 // workerMain: c10 --worker <tasks.ndjson> <results.ndjson> <scratch dir>
 func workerMain(args []string) {
@@ -316,8 +386,10 @@ func runTasks(scratch string, tasks []task, nproc int) (map[int]result, error) {
 					rfh.Close()
 				}
 				os.RemoveAll(base + ".d")
-				os.Remove(tf)
-				os.Remove(rf)
+				if os.Getenv("C10_KEEP") == "" {
+					os.Remove(tf)
+					os.Remove(rf)
+				}
 				var rest []task
 				crashed := false
 				for _, t := range pending {
@@ -345,7 +417,7 @@ func runTasks(scratch string, tasks []task, nproc int) (map[int]result, error) {
 				}
 				if !crashed && len(rest) > 0 {
 					// the worker stopped without a task in flight: a harness/tool failure
-					errs[si] = fmt.Errorf("worker %d stopped early (%v): %s", si, runErr, stderr.String())
+					errs[si] = fmt.Errorf("worker %d stopped early (%v; last started task %d, %d done, %d left; files %s): %s", si, runErr, started, len(done), len(rest), base, stderr.String())
 					return
 				}
 				pending = rest
